@@ -152,7 +152,7 @@ def gen_query(R, funcs):
     cfg = G.Cfg(filters=True, registry=reg, max_depth=2, max_segments=3)
     cfg.names = ["a", "b", "c", "id", 'q"r', "a'b", "a"]
     cfg.lit_pool = [None, True, 0, 1, 2, 7, "a", "b", 'x"y', "it's", 1.5]
-    cfg.indices = [0, 1, -1, 2]
+    cfg.indices = [0, 1, -1, 2, 0, 1, 7, -7, 60, -60, 2**60]
     gen = G.QGen(R, cfg)
     r = R.random()
     if r < 0.35:
